@@ -70,7 +70,8 @@ def run(ctx):
     combos = list(itertools.product(TESTS, [False, True], [False, True], [False, True]))
     rnd.shuffle(combos)
     if not big:
-        combos = combos[:14]
+        # every test kind in both representations, with one random choice of the capacitance/inductance options each
+        combos = [(t, a, rnd.random() < 0.5, True if t.endswith("-inv") else rnd.random() < 0.5) for t in TESTS for a in (False, True)]
     for (test, adm, C, L) in combos:
         if test.endswith("-inv") and not L:
             continue
